@@ -73,3 +73,188 @@ def emit(o, repo, T):
             return (f'/-- `moments.{name}` as a function of the raw moments -/\n'
                     f'def {name} {"" if not needsE else ""}{sig} : F := {body}')
         o.formula('moments.' + name, mk)
+
+    # ---- C19 (driver): numerator and denominator base of the skewness quotient, as coded ----------
+    def skew_parts():
+        fn = T.find_func(moments, 'skewness')
+        tr = T.Tr(call_hook=moment_hook)
+        tr.run_stmts([s for s in fn.body if not isinstance(s, ast.Return)])
+        r = T.the(T.returns(fn), 'skewness return')
+        if not (isinstance(r, ast.BinOp) and isinstance(r.op, ast.Div) and isinstance(r.right, ast.BinOp)
+                and isinstance(r.right.op, ast.Pow) and T.const_value(r.right.right) == T.Fraction(3, 2)):
+            raise U('skewness is not <num> / <base> ** 1.5')
+        return ['/-- `moments.skewness`: numerator of the returned quotient -/\n'
+                f'def skewnessNum (m1 m2 m3 m4 : F) : F := {tr.tr(r.left)}',
+                '/-- `moments.skewness`: base of the power `** 1.5` in the denominator -/\n'
+                f'def skewnessDenBase (m1 m2 m3 m4 : F) : F := {tr.tr(r.right.left)}']
+    o.formula('moments.skewness.parts', skew_parts)
+
+    def moment_guard():
+        fn = T.find_func(moments, 'moment')
+        g = T.raise_guards(fn)
+        if len(g) != 1:
+            raise U('moment: expected one argument guard')
+        return ('/-- `moments.moment`: the argument guard that raises -/\n'
+                f'def momentRejects (order : F) : Prop := {T.cmp_guard(g[0], T.Tr(env={"order": "order"}))}')
+    o.formula('moments.moment.guard', moment_guard)
+
+    # ---- C14: per-entry EM updates ------------------------------------------------------------------
+    node = T.parse_file(repo, 'deeprob/spn/structure/node.py')
+    cltree = T.parse_file(repo, 'deeprob/spn/structure/cltree.py')
+    em = T.parse_file(repo, 'deeprob/spn/learning/em.py')
+
+    def em_formula(name, tree, qual, syms, outs, doc):
+        """run `qual` symbolically under the element-wise reading `syms`; emit one def per (lean name, args, target)"""
+        def mk():
+            fn = T.find_func(tree, qual)
+            tr = T.Tr(syms=syms, name_hook=lambda k: tr.env.get(k + '[i]'))
+            tr.run(fn)
+            res = []
+            for lean_name, args, target in outs:
+                body = tr.value_of(target, qual + ' ' + target)
+                res.append(f'/-- `{qual}`: {doc} — `{target}` -/\ndef {lean_name} ({args} : F) : F := {body}')
+            return res
+        o.formula(name, mk)
+
+    em_formula('Sum.em_step', node, 'Sum.em_step',
+               {'self.weights': 'w', 'np.sum(stats, axis=1)': 's', 'np.sum(unnorm_weights)': 'Z', 'step_size': 'eta'},
+               [('sumEmUnnorm', 'w s', 'unnorm_weights'), ('sumEmNew', 'eta w s Z', 'self.weights')],
+               'entry of child i; w = old weight, s = Σ_rows stats[i], Z = Σ_j unnorm_weights[j]')
+    em_formula('Bernoulli.em_step', leaf, 'Bernoulli.em_step',
+               {'self.p': 'p', 'np.dot(stats, data)': 'S1', 'np.sum(stats)': 'T', 'step_size': 'eta'},
+               [('bernEmReest', 'S1 T', 'p'), ('bernEmNew', 'eta p S1 T', 'self.p')],
+               'S1 = Σ stats·data, T = Σ stats')
+    em_formula('Categorical.em_step', leaf, 'Categorical.em_step',
+               {'self.probabilities': 'p', 'np.sum(stats[data == d])': 'Sd', 'np.sum(stats)': 'T',
+                'len(self.categories)': 'K', 'step_size': 'eta'},
+               [('catEmReest', 'Sd T K', 'probabilities[i]'), ('catEmNew', 'eta p Sd T K', 'self.probabilities')],
+               'entry of category d; Sd = Σ_{data = d} stats, T = Σ stats, K = number of categories')
+    em_formula('Gaussian.em_step.mean', leaf, 'Gaussian.em_step',
+               {'self.mean': 'mu', 'self.stddev': 'sigma', 'np.sum(stats)': 'T', 'np.sum(stats * data)': 'Sx',
+                'np.sum(stats * (data - mean) ** 2.0)': 'V', 'step_size': 'eta'},
+               [('gaussEmTotal', 'T', 'total_stats'), ('gaussEmMeanReest', 'Sx T', 'mean'),
+                ('gaussEmMeanNew', 'eta mu Sx T', 'self.mean')],
+               'Sx = Σ stats·data, T = Σ stats')
+    em_formula('BinaryCLT.em_step', cltree, 'BinaryCLT.em_step',
+               {'np.sum(stats)': 'T', 'priors_stats': 'P', 'conditional_stats': 'C', 'priors[self.tree]': 'Pp',
+                'np.sum(weighted_features * data[:, self.tree], axis=0)': 'C1',
+                'np.exp(self.params)': 'old', 'np.sum(params, axis=2, keepdims=True)': 'Z', 'step_size': 'eta',
+                'np.empty_like(self.params)': 'q'},
+               [('cltEmPrior1', 'P T', 'priors[:,1]'), ('cltEmPrior0', 'P T', 'priors[:,0]'),
+                ('cltEmCond1', 'C1', 'conditional_stats[:,1]'), ('cltEmCond0', 'P C1', 'conditional_stats[:,0]'),
+                ('cltEmCell1', 'C T Pp', 'params[:,:,1]'), ('cltEmCell0', 'C T Pp', 'params[:,:,0]'),
+                ('cltEmNew', 'eta old q Z', 'params')],
+               'per CPT entry; P = Σ stats·x_i, C1 = Σ stats·x_i·x_pa(i), C = conditional_stats[i,b], '
+               'Pp = priors[pa(i)][b], old = exp(self.params) entry, q = re-estimated entry, Z = row sum after mixing')
+
+    # Gaussian standard deviation: whole formula (needs sqrt) and its two sqrt-free halves
+    def gauss_std():
+        fn = T.find_func(leaf, 'Gaussian.em_step')
+        syms = {'self.mean': 'mu', 'self.stddev': 'sigma', 'np.sum(stats)': 'T', 'np.sum(stats * data)': 'Sx',
+                'np.sum(stats * (data - mean) ** 2.0)': 'V', 'step_size': 'eta'}
+        tr = T.Tr(syms=syms); tr.run(fn)
+        whole = tr.value_of('self.stddev')
+        sq = T.the(T.calls(fn, 'sqrt'), 'sqrt in Gaussian.em_step')
+        arg = None
+        # argument of the square root, with the names bound as they are at that statement
+        tr3 = T.Tr(syms=syms)
+        for s in fn.body:
+            if any(c is sq for c in ast.walk(s)):
+                arg = tr3.tr(sq.args[0]); break
+            tr3.run_stmts([s])
+        if arg is None:
+            raise U('sqrt statement not found')
+        tr4 = T.Tr(syms=dict(syms, **{ast.unparse(sq): 'r'})); tr4.run(fn)
+        rest = tr4.value_of('self.stddev')
+        return ['/-- `Gaussian.em_step`: new standard deviation; V = Σ stats·(data − mean)², T = Σ stats -/\n'
+                f'def gaussEmStdNew (eta sigma V T : F) : F := {whole}',
+                '/-- `Gaussian.em_step`: the argument of `np.sqrt` -/\n'
+                f'def gaussEmStdArg (V T : F) : F := {arg}',
+                '/-- `Gaussian.em_step`: new standard deviation as a function of the square root `r` -/\n'
+                f'def gaussEmStdOf (eta sigma r : F) : F := {rest}']
+    o.formula('Gaussian.em_step.stddev', gauss_std)
+
+    # ---- C14: argument guards of expectation_maximization ----------------------------------------------
+    def em_guards():
+        fn = T.find_func(em, 'expectation_maximization')
+        g = T.raise_guards(fn)
+        tr = T.Tr(env={'num_iter': 'numIter', 'batch_perc': 'batchPerc', 'step_size': 'eta'})
+        gs = [T.cmp_guard(x, tr) for x in g]
+        if len(gs) != 3:
+            raise U('expectation_maximization: expected three argument guards')
+        return ('/-- `expectation_maximization`: the call is rejected iff one of these holds -/\n'
+                f'def emRejects (numIter batchPerc eta : F) : Prop := {" ∨ ".join(gs)}')
+    o.formula('em.guards', em_guards)
+
+    # ---- C13: constructor guards and fit / EM clamps ---------------------------------------------------
+    def gauss_ctor():
+        fn = T.find_func(leaf, 'Gaussian.__init__')
+        g = T.the(T.raise_guards(fn), 'Gaussian.__init__ guard')
+        return ('/-- `Gaussian.__init__` raises iff -/\n'
+                f'def gaussCtorRejects (stddev : F) : Prop := {T.cmp_guard(g, T.Tr(env={"stddev": "stddev"}))}')
+    o.formula('Gaussian.__init__', gauss_ctor)
+
+    def gauss_fit_clamp():
+        fn = T.find_func(leaf, 'Gaussian.fit')
+        v = T.assignments(fn, 'self.stddev')[-1]
+        return ('/-- `Gaussian.fit`: the stored standard deviation as a function of the estimate -/\n'
+                f'def gaussFitClamp (s : F) : F := {T.Tr(env={"self.stddev": "s"}).tr(v)}')
+    o.formula('Gaussian.fit.clamp', gauss_fit_clamp)
+
+    def gauss_em_clamp():
+        fn = T.find_func(leaf, 'Gaussian.em_step')
+        v = T.assignments(fn, 'stddev')[-1]
+        return ('/-- `Gaussian.em_step`: the clamp applied to the re-estimated standard deviation -/\n'
+                f'def gaussEmClamp (s : F) : F := {T.Tr(env={"stddev": "s"}).tr(v)}')
+    o.formula('Gaussian.em_step.clamp', gauss_em_clamp)
+
+    def bern_ctor():
+        fn = T.find_func(leaf, 'Bernoulli.__init__')
+        g = T.the(T.raise_guards(fn), 'Bernoulli.__init__ guard')
+        return ('/-- `Bernoulli.__init__` raises iff -/\n'
+                f'def bernCtorRejects (p : F) : Prop := {T.cmp_guard(g, T.Tr(env={"p": "p"}))}')
+    o.formula('Bernoulli.__init__', bern_ctor)
+
+    def bern_fit():
+        fn = T.find_func(leaf, 'Bernoulli.fit')
+        v = T.the(T.assignments(fn, 'self.p'), 'Bernoulli.fit p')
+        tr = T.Tr(syms={'np.sum(data)': 'n1', 'len(data)': 'n', 'alpha': 'alpha'})
+        return ('/-- `Bernoulli.fit`: Laplace-smoothed estimate; n1 = number of ones, n = number of rows -/\n'
+                f'def bernFit (n1 n alpha : F) : F := {tr.tr(v)}')
+    o.formula('Bernoulli.fit', bern_fit)
+
+    def cat_fit():
+        fn = T.find_func(leaf, 'Categorical.fit')
+        v = T.the(T.assignments(fn, 'self.probabilities[i]'), 'Categorical.fit probabilities[i]')
+        tr = T.Tr(syms={'len(data[data == d])': 'nd', 'len(data)': 'n', 'len(domain)': 'K', 'alpha': 'alpha'})
+        return ('/-- `Categorical.fit`: Laplace-smoothed estimate of one category -/\n'
+                f'def catFit (nd n K alpha : F) : F := {tr.tr(v)}')
+    o.formula('Categorical.fit', cat_fit)
+
+    def sum_guard(name, tree, qual, arg, lean):
+        def mk():
+            fn = T.find_func(tree, qual)
+            gs = [g for g in T.raise_guards(fn) if 'isclose' in ast.unparse(g)]
+            g = T.the(gs, qual + ' isclose guard')
+            tr = T.Tr(syms={f'np.sum({arg})': 'total'})
+            return (f'/-- `{qual}` raises iff (total = Σ {arg}) -/\n'
+                    f'def {lean} (total : F) : Prop := {T.cmp_guard(g, tr)}')
+        o.formula(name, mk)
+    sum_guard('Sum.__init__', node, 'Sum.__init__', 'weights', 'sumCtorRejects')
+    sum_guard('Categorical.__init__', leaf, 'Categorical.__init__', 'probabilities', 'catCtorRejects')
+    sum_guard('Isotonic.__init__', leaf, 'Isotonic.__init__', 'densities', 'isoCtorRejects')
+
+    # ---- C13: rounding digits of the JSON writer ----------------------------------------------------------
+    io = T.parse_file(repo, 'deeprob/spn/structure/io.py')
+    def json_digits():
+        ds = set()
+        for q in ('spn_to_digraph', 'binary_clt_to_digraph'):
+            fn = T.find_func(io, q)
+            for c in T.calls(fn, 'round') + T.calls(fn, 'around'):
+                if len(c.args) == 2:
+                    ds.add(T.const_value(c.args[1]))
+                else:
+                    raise U('rounding call without digits in ' + q)
+        d = T.the(sorted(ds), 'rounding digits of the JSON writer')
+        return f'/-- `io.spn_to_digraph` / `binary_clt_to_digraph`: decimals kept by every `round` / `np.around` -/\ndef jsonDigits : Nat := {d.numerator}'
+    o.const('jsonDigits', json_digits)
